@@ -18,7 +18,8 @@ monoids over an n-d grid of blocks.  Here:
   partials are computed as `arg_chunk` does (`np.argmin` of the block, `unravel_index` in the block shape, plus the block
   offset, `ravel_multi_index` in the total shape — `Model/ArgNd.lean`), merged by `arg_combine` / `arg_agg` over the n-d tree
   (every per-axis `split_every`, every valid depth, both `keepdims`): the result is `argBest` of NumPy's C-order ravel —
-  value and FIRST flat index of the extremum (`argBest_first`), `none` (NumPy raises) iff the array is empty.
+  value and FIRST flat index of the extremum (`argBest_first_min/max`, `argmin/argmax_nd_first_index`), `none` (NumPy
+  raises) iff the array is empty.
 -/
 namespace Dask.C22x
 open Dask.ArrayReduce Dask.Moment Dask.C22
@@ -137,6 +138,60 @@ theorem argmax_nd_dask_depth (kd : Bool) (ks : List Nat) (chunks : List (List Na
   cases c with
   | nil => exact absurd rfl this
   | cons => simp
+
+/-- `argmin`: value `v` at flat index `i`, strictly larger values before, no smaller value after -/
+theorem argBest_first_min (xs : List Int) (v : Int) (i : Nat) (h : argBest ltMin xs = some (v, i)) :
+    ∃ l1 l2, xs = l1 ++ v :: l2 ∧ l1.length = i ∧ (∀ x ∈ l1, v < x) ∧ (∀ x ∈ l2, v ≤ x) := by
+  obtain ⟨l1, l2, e, hl, p1, p2⟩ := argBest_first ltMin
+    (by intro a b c; simp only [ltMin, decide_eq_true_eq]; omega)
+    (by intro a b c; simp only [ltMin, decide_eq_true_eq, decide_eq_false_iff_not]; omega) xs v i h
+  refine ⟨l1, l2, e, hl, ?_, ?_⟩
+  · intro x hx; simpa [ltMin] using p1 x hx
+  · intro x hx; have := p2 x hx; simp only [ltMin, decide_eq_false_iff_not] at this; omega
+
+theorem argBest_first_max (xs : List Int) (v : Int) (i : Nat) (h : argBest ltMax xs = some (v, i)) :
+    ∃ l1 l2, xs = l1 ++ v :: l2 ∧ l1.length = i ∧ (∀ x ∈ l1, x < v) ∧ (∀ x ∈ l2, x ≤ v) := by
+  obtain ⟨l1, l2, e, hl, p1, p2⟩ := argBest_first ltMax
+    (by intro a b c; simp only [ltMax, decide_eq_true_eq, gt_iff_lt]; omega)
+    (by intro a b c; simp only [ltMax, decide_eq_true_eq, decide_eq_false_iff_not, gt_iff_lt]; omega) xs v i h
+  refine ⟨l1, l2, e, hl, ?_, ?_⟩
+  · intro x hx; simpa [ltMax] using p1 x hx
+  · intro x hx; have := p2 x hx; simp only [ltMax, decide_eq_false_iff_not, gt_iff_lt] at this; omega
+
+theorem argBest_none_iff (lt : Int → Int → Bool) (xs : List Int) : argBest lt xs = none ↔ xs = [] := by
+  cases xs <;> simp [argBest]
+
+
+/-- **the statement in full**: whatever the chunking, `split_every`, depth and `keepdims`, if the n-d tree answers
+    `(v, i)` then `v` sits at flat index `i` of the C-order ravel, every earlier element is strictly larger and no later
+    element is smaller; and it raises exactly when the array has no element -/
+theorem argmin_nd_first_index (kd : Bool) (d : Nat) (ks : List Nat) (chunks : List (List Nat)) (f : List Nat → Int)
+    (h : AxesOk (d + 1) ks (chunks.map List.length)) :
+    (∀ v i key, argTreeNd ltMin chunks ks kd (d + 1) f = some [(key, some (v, i))] →
+      ∃ l1 l2, flatData chunks f = l1 ++ v :: l2 ∧ l1.length = i ∧ (∀ x ∈ l1, v < x) ∧ (∀ x ∈ l2, v ≤ x)) ∧
+    (argTreeNd ltMin chunks ks kd (d + 1) f = some [(finalKey kd (chunks.map List.length), none)]
+      ↔ flatData chunks f = []) := by
+  rw [argmin_nd_eq_numpy kd d ks chunks f h]
+  constructor
+  · intro v i key hk
+    simp only [Option.some.injEq, List.cons.injEq, Prod.mk.injEq, and_true] at hk
+    exact argBest_first_min _ v i hk.2
+  · simp only [Option.some.injEq, List.cons.injEq, Prod.mk.injEq, and_true, true_and]
+    exact argBest_none_iff ltMin _
+
+theorem argmax_nd_first_index (kd : Bool) (d : Nat) (ks : List Nat) (chunks : List (List Nat)) (f : List Nat → Int)
+    (h : AxesOk (d + 1) ks (chunks.map List.length)) :
+    (∀ v i key, argTreeNd ltMax chunks ks kd (d + 1) f = some [(key, some (v, i))] →
+      ∃ l1 l2, flatData chunks f = l1 ++ v :: l2 ∧ l1.length = i ∧ (∀ x ∈ l1, x < v) ∧ (∀ x ∈ l2, x ≤ v)) ∧
+    (argTreeNd ltMax chunks ks kd (d + 1) f = some [(finalKey kd (chunks.map List.length), none)]
+      ↔ flatData chunks f = []) := by
+  rw [argmax_nd_eq_numpy kd d ks chunks f h]
+  constructor
+  · intro v i key hk
+    simp only [Option.some.injEq, List.cons.injEq, Prod.mk.injEq, and_true] at hk
+    exact argBest_first_max _ v i hk.2
+  · simp only [Option.some.injEq, List.cons.injEq, Prod.mk.injEq, and_true, true_and]
+    exact argBest_none_iff ltMax _
 
 /-- the per-block partial is what `arg_chunk` computes from the block alone, and it is the best candidate of the block -/
 theorem arg_chunk_nd_den (lt : Int → Int → Bool) (chunks : List (List Nat)) (f : List Nat → Int) (B : List (Nat × Nat))
